@@ -50,7 +50,7 @@ func locName(c dnsgen.Client) string {
 	if canonical[c.Nominal] == c.ID {
 		return c.Nominal
 	}
-	return c.Nominal + "@" + c.ID
+	return dnsgen.LocSlug(c.Nominal) + "@" + c.ID
 }
 
 type unit struct {
@@ -94,7 +94,7 @@ func (c *checker) askClients(st *dnsgen.Store, clients []dnsgen.Client, which []
 
 func (c *checker) runUnit(u unit) (sample interface{}) {
 	base := dnsgen.Build(c.items, u.sel)
-	clients := dnsgen.Clients(base.HasECS)
+	clients := base.Clients()
 	amb := make([]map[string]bool, len(clients))
 	allIdx := make([]int, len(clients))
 	for i, cl := range clients {
@@ -232,6 +232,9 @@ func editsFor(f *dnsgen.File, thorough bool) []dnsgen.Edit {
 	for _, t := range []string{"aa", "bb"} {
 		all = append(all, dnsgen.AddEdits(t)...)
 	}
+	for _, t := range dnsgen.XLocations {
+		all = append(all, dnsgen.XAddEdits(t)...)
+	}
 	all = append(all, dnsgen.MapEdits()...)
 	all = append(all, dnsgen.LineEdits(f.Lines)...)
 	for _, x := range all {
@@ -245,13 +248,14 @@ func editsFor(f *dnsgen.File, thorough bool) []dnsgen.Edit {
 // C04 base pool: the items that shape visibility (located records, zone cuts,
 // wildcards, neighbours, maps); quick uses the first nQuick of them.
 var basePool = []string{
-	"deleg", "delegaa", "sub", "locz", "wildapex", "wildaa", "w2aa", "na_aa", "ecs", "m2", "no_m1nets",
+	"deleg", "delegaa", "sub", "locz", "wildapex", "wildaa", "w2aa", "xloc", "na_aa", "ecs", "m2", "no_m1nets",
 	"wild", "w1", "na", "no_mexact", "cn", "naba", "mx", "rootns", "d6m1", "d6c1", "no_mwild", "xsub", "below",
+	"soaaa", "nsaa", "subnsaa", "subsoaaa", "mrootw", "8rootw", "na_AA", "na_01", "cndup",
 }
 
 const (
-	nQuick = 11 // quick: singles of the first nQuick pool items
-	nPair  = 7  // thorough: pairs of the first nPair pool items
+	nQuick = 12 // quick: singles of the first nQuick pool items
+	nPair  = 8  // thorough: pairs of the first nPair pool items
 )
 
 func main() {
